@@ -146,4 +146,37 @@ theorem refresh_order_src : refresh_order =
 theorem load_cache_sync_time_src : load_cache_sync_time =
     "c.SyncTime, c.SyncTime" := by decide
 
+/-- `backendpb`: absent or disabled rate-limit settings mean the global limiter (`backendRate`). -/
+theorem bp_rate_cond_src : bp_rate_cond = "x == nil || !x.Enabled" := by decide
+
+/-- `backendpb`: absent or disabled access settings mean the empty access profile (`backendAccess`). -/
+theorem bp_access_cond_src : bp_access_cond = "x == nil || !x.Enabled" := by decide
+
+/-- `backendpb`: absent authentication settings are the disabled, allow-all ones (`backendAuth`). -/
+theorem bp_auth_conds_src : bp_auth_conds = "x == nil | err != nil" := by decide
+
+/-- `backendpb`: an unset DoH password hash is the allow-all authenticator. -/
+theorem bp_doh_password_unset_src : bp_doh_password_unset = "agdpasswd.AllowAuthenticator{}, nil" := by decide
+
+/-- `devicesToInternal` skips a device exactly when its conversion fails … -/
+theorem bp_devices_conds_src : bp_devices_conds = "l == 0 | err != nil | d != nil" := by decide
+
+/-- … and appends id and device together, after the conversion (`acceptedDevs`). -/
+theorem bp_devices_calls_src : bp_devices_calls = "toInternal,append,append" := by decide
+
+/-- the profile's `DeviceIDs` are the ids `devicesToInternal` returned (`convProfile`). -/
+theorem bp_profile_device_ids_src : bp_profile_device_ids =
+    "devicesToInternal(ctx, x.Devices, bindSet, errColl, logger, mtrc)" := by decide
+
+/-- `ProfileStorage.Profiles`: convert, append profile and devices, read the trailer (`respOfWire`). -/
+theorem bp_profiles_calls_src : bp_profiles_calls = "toInternal,append,append,syncTimeFromTrailer" := by decide
+
+/-- the `sync_time` trailer is in milliseconds and is not rounded. -/
+theorem bp_sync_time_unit_src : bp_sync_time_unit =
+    "time.Unix(0, syncTimeMs*time.Millisecond.Nanoseconds()), nil" := by decide
+
+/-- `Refresh` returns early only on a failed storage request; the store error is returned after the
+data was applied (`Op.syncNS`). -/
+theorem refresh_conds_src : refresh_conds = "!isSuccess | err != nil | isFullSync | err != nil" := by decide
+
 end Agd.Tie.C14
